@@ -301,12 +301,12 @@ func C18(c *Ctx) {
 	c.Rule(r1, "every use of Reader.GetWriteByStartTs (Commit, commitKey, rollbackKey, CheckTxnStatus) compares the found write's Kind with Mutation_Rollback before treating it as evidence of a commit (before any path that reports success / a commit version)")
 	ops := opConsts(c)
 	sites := 0
-	for _, name := range []string{"Commit", "commitKey", "rollbackKey", "CheckTxnStatus"} {
-		fn := c.Fn("percolator", name)
-		if fn == nil {
+	for _, fn := range c.P.ModFuncs {
+		if FuncPkgPath(fn) != Module+"/percolator" {
 			continue
 		}
 		for i, g := range Calls(fn, false, Named("percolator.(*Reader).GetWriteByStartTs")) {
+			c.Touch(fn)
 			sites++
 			k := key(fn, fmt.Sprintf("GetWriteByStartTs[%d]#Kind-vs-Rollback", i+1))
 			// the write pointer result
@@ -329,17 +329,34 @@ func C18(c *Ctx) {
 					}
 				}
 			}
+			if !checked && wv != nil {
+				// a found write of either kind is handled alike: every path from the non-nil edge
+				// returns the same nil constants without calling anything (e.g. rollbackKey leaving
+				// a key with any write record untouched), or the pair is handed to the caller
+				uniform := false
+				for _, e := range NilEdges(fn, map[ssa.Value]bool{wv: true}) {
+					uniform = uniformNilReturn(e.NonNil[1])
+				}
+				if uniform {
+					c.Pass(r1, k, g.Pos(), 2, "a found write leads to the same effect-free nil return whatever its kind")
+					continue
+				}
+				if returnsValue(fn, wv) {
+					c.Pass(r1, k, g.Pos(), 2, "the found write is returned to the caller, which examines it")
+					continue
+				}
+			}
 			c.Decide(checked, r1, k, g.Pos(), 3, "a found write is checked for being a rollback marker first", "a write record found by start ts is treated as a commit without excluding the rollback marker (commit after rollback would succeed / be reported)")
 		}
 	}
-	c.Decide(sites >= 4, r1, "percolator#GetWriteByStartTs-sites", 0, sites+1, "four confirmed use sites", fmt.Sprintf("expected 4 GetWriteByStartTs use sites, found %d", sites))
+	c.Decide(sites >= 3, r1, "percolator#GetWriteByStartTs-sites", 0, sites+1, fmt.Sprintf("%d use sites in package percolator", sites), fmt.Sprintf("expected at least 3 GetWriteByStartTs use sites in package percolator (commit, rollback, status check), found %d", sites))
 
 	const r2 = "K1.conflict-checks-before-writes"
 	c.Rule(r2, "prewriteMutation: the lock-mismatch return and the write-conflict return (commitTs >= StartVersion) lie on every path to the data and lock writes; rollbackKey: the existing-write test precedes the deletes and the rollback record; commitKey: the MinCommitTs test and the existing-write test precede the commit record; the commit record is written before the lock is removed")
 	wr := deepMatcher(Named("NoKV.(*DB).SetVersionedEntry", "NoKV.(*DB).DeleteVersionedEntry"), Module+"/percolator", 2)
 	if fn := c.Fn("percolator", "prewriteMutation"); fn != nil {
-		beforeOK(c, r2, fn, "GetLock", Named("percolator.(*Reader).GetLock"), "versioned write", wr, 4)
-		beforeOK(c, r2, fn, "MostRecentWrite", Named("percolator.(*Reader).MostRecentWrite"), "versioned write", wr, 4)
+		beforeOK(c, r2, fn, "GetLock", Named("percolator.(*Reader).GetLock"), "versioned write", wr, 2)
+		beforeOK(c, r2, fn, "MostRecentWrite", Named("percolator.(*Reader).MostRecentWrite"), "versioned write", wr, 2)
 		writes := Calls(fn, false, wr)
 		// lock mismatch test: lock.Ts != req.StartVersion → return
 		guards := 0
@@ -383,7 +400,7 @@ func C18(c *Ctx) {
 		c.Decide(lockWrites == 1, r2, key(fn, "single-lock-write"), fn.Pos(), 1, "one lock write", fmt.Sprintf("%d lock writes in prewriteMutation", lockWrites))
 	}
 	if fn := c.Fn("percolator", "rollbackKey"); fn != nil {
-		beforeOK(c, r2, fn, "GetWriteByStartTs", Named("percolator.(*Reader).GetWriteByStartTs"), "versioned write", wr, 3)
+		beforeOK(c, r2, fn, "GetWriteByStartTs", Named("percolator.(*Reader).GetWriteByStartTs"), "versioned write", wr, 2)
 		// existing write (non-nil) edge never reaches the writes
 		for _, g := range Calls(fn, false, Named("percolator.(*Reader).GetWriteByStartTs")) {
 			var wv ssa.Value
@@ -914,4 +931,51 @@ func isLockDeleteOf(cfLock int64) func(ssa.CallInstruction) bool {
 		cf, ok := ConstInt(ci.Common().Args[1])
 		return ok && cf == cfLock
 	}
+}
+
+// uniformNilReturn: every path from b reaches a return of nil constants only, without
+// calling anything.
+func uniformNilReturn(b *ssa.BasicBlock) bool {
+	seen := map[*ssa.BasicBlock]bool{}
+	var walk func(x *ssa.BasicBlock) bool
+	walk = func(x *ssa.BasicBlock) bool {
+		if seen[x] {
+			return true
+		}
+		seen[x] = true
+		for _, in := range x.Instrs {
+			switch t := in.(type) {
+			case ssa.CallInstruction:
+				return false
+			case *ssa.Store, *ssa.MapUpdate, *ssa.Send:
+				return false
+			case *ssa.Return:
+				for i := range t.Results {
+					if !IsNilConst(RetVal(t, i)) {
+						return false
+					}
+				}
+				return true
+			}
+		}
+		for _, s := range x.Succs {
+			if !walk(s) {
+				return false
+			}
+		}
+		return len(x.Succs) > 0
+	}
+	return walk(b)
+}
+
+// returnsValue: v is a result of some return of fn.
+func returnsValue(fn *ssa.Function, v ssa.Value) bool {
+	for _, r := range Returns(fn) {
+		for i := range r.Results {
+			if RetVal(r, i) == v {
+				return true
+			}
+		}
+	}
+	return false
 }
